@@ -4,6 +4,7 @@ import (
 	"errors"
 	"io"
 	"reflect"
+	"sync"
 
 	"jetverif/jetrun"
 
@@ -34,6 +35,26 @@ func EngineRun(p *Program, funcs map[string]jet.Func) (jetrun.Outcome, jet.VarMa
 		for _, k := range p.Late {
 			delete(first, k)
 		}
+	}
+	if p.ForeignLayout != "" {
+		shared := &sharedCache{}
+		var fopts []jet.Option
+		switch p.ForeignLayout {
+		case "nil":
+			fopts = append(fopts, jet.WithSafeWriter(nil))
+		case "custom":
+			fopts = append(fopts, jet.WithSafeWriter(mkSafeWriter(CustomEscape)))
+		}
+		other, _ := jetrun.NewSet(first, append(fopts, jet.WithCache(shared))...)
+		for _, f := range p.Files {
+			if f.Extends != "" {
+				func() {
+					defer func() { recover() }()
+					jetrun.Get(other, f.Extends)
+				}()
+			}
+		}
+		opts = append(opts, jet.WithCache(shared))
 	}
 	s, loader := jetrun.NewSet(first, opts...)
 	swCustomFn, _ := safeWriter("swCustom")
@@ -117,6 +138,18 @@ func EngineRun(p *Program, funcs map[string]jet.Func) (jetrun.Outcome, jet.VarMa
 	}
 	return jetrun.Exec(t, vars, data), vars, src
 }
+
+// sharedCache is a Cache object handed to more than one Set.
+type sharedCache struct{ m sync.Map }
+
+func (c *sharedCache) Get(path string) *jet.Template {
+	if t, ok := c.m.Load(path); ok {
+		return t.(*jet.Template)
+	}
+	return nil
+}
+
+func (c *sharedCache) Put(path string, t *jet.Template) { c.m.Store(path, t) }
 
 // mkSafeWriter: the Set's custom escaper and the user-supplied pipeline writer are made by one constructor
 // (two closures of the same function literal: same code, different behaviour).
